@@ -1,6 +1,6 @@
 """C13 - sequence library: kind preservation and stability/first-occurrence tables (static clauses only)."""
 import re
-from .core import (CheckError, find_match, arm_region, pat_str, strip_ref, origins, only_when, pat_paths,
+from .core import (family_calls, CheckError, find_match, arm_region, pat_str, strip_ref, origins, only_when, pat_paths,
                    Registry, op_local, bool_switches)
 
 META = {
@@ -276,13 +276,14 @@ def run(F, rep, tier):
         if not F.has_fn(fn9):
             rep.error('R13.9', fn9 + ' missing')
             continue
-        b9 = F.body(fn9)
-        r2s = [c for c in b9.calls if c.target.endswith('Func>::run2') and len(c.args) >= 4]
+        r2s = [c for c in family_calls(F, fn9) if c.target.endswith('Func>::run2') and len(c.args) >= 4]
         if not r2s:
             rep.error('R13.9', '%s: no call of the combining function found' % fn9)
         for k9, c in enumerate(r2s):
+            b9 = c.body
             o_first = origins(b9, c.args[2], passthru=('branch',))
             o_second = origins(b9, c.args[3], passthru=('branch',))
+            # inside an extracted helper the running accumulator may arrive as a parameter that is reassigned from run2
             fb1 = any(o[0] == 'call' and o[1].endswith('run2') for o in o_first)
             fb2 = any(o[0] == 'call' and o[1].endswith('run2') for o in o_second) or any(o[0] == 'payload' and o[1] in ('Three', 'Two') for o in o_second)
             el2 = any(o[0] == 'call' and o[1].endswith('::next') for o in o_second)
